@@ -189,8 +189,8 @@ def evaluate__div_operator(self: XPathToken, context: ta.ContextType = None) \
             if isinstance(dividend, Duration):
                 raise self.error('FODT0002', err) from None  # as the '*' operator does
             raise self.error('FOAR0002', err) from None
-        except (ZeroDivisionError, decimal.DivisionByZero):
-            raise self.error('FOAR0001') from None
+        except (ZeroDivisionError, decimal.DivisionByZero, decimal.InvalidOperation):
+            raise self.error('FOAR0001') from None  # InvalidOperation: the decimal division 0 / 0
 
     elif isinstance(dividend, AbstractDateTime):
         raise self.error('FODT0001')
